@@ -501,7 +501,7 @@ func raceRun(body []byte) *core.Verdict {
 func buildRace(r *core.Run) string {
 	out := r.Out + "/verif-race"
 	cmd := exec.Command("go", "build", "-race", "-tags", "verif", "-o", out, "./cmd/verif")
-	cmd.Dir = core.Root + "/harness"
+	cmd.Dir = core.HarnessDir
 	cmd.Env = append(os.Environ(), "GOFLAGS=-mod=mod", "GOPROXY=off", "GOSUMDB=off", "GOTOOLCHAIN=local", "CGO_ENABLED=1")
 	if b, err := cmd.CombinedOutput(); err != nil {
 		r.Infra("race build failed: " + err.Error() + " " + string(b))
